@@ -121,6 +121,18 @@ def main(tier, replay=None):
         if kind != "Tuple":
             camp.run(seqgen.header("Probe", INTS), [full.execution(p) for p in cut], "replay/%s/Probe" % kind, variant=kind)
 
+    # a List assigned from a Tuple that holds one object at several positions: positions count (get(t, i)), not identities
+    dups = [(1, 1, 2), (1, 2, 1, 3), (3, 2, 3, 3, 1), (1, 1), (2, 2, 2), (1, 2, 3, 1, 2, 3), (2, 1, 1, 1, 1, 3)]
+    dx = []
+    for i in range(0, len(dups), 3):
+        L = ["reset", "new 1 List 3", "new 2 List"]
+        for d in dups[i:i + 3]:
+            for o in (1, 2):
+                L.append("fromit %d assign duptuple%s" % (o, "".join(" %d" % t for t in d)))
+                L += ["push %d 2" % o, "get %d 0" % o, "push %d 3" % o]
+        dx.append(L)
+    camp.run(seqgen.header("Int", INTS), dx, "dup-tuple-into-list/Int", variant="List")
+    camp.run(seqgen.header("String", STRS), dx, "dup-tuple-into-list/String", variant="List")
     nexec = 10 if quick else 120
     big = (lambda: rng.choice([60, 150])) if quick else (lambda: rng.choice([200, 800, 2500]))
     ml = 40 if quick else 300
